@@ -32,9 +32,6 @@ Definition tz_text (q : Z) (dst : N) : bytes :=
 Definition zones : list Z := zrange (-79) 159.
 Definition dsts : list N := [0; 1; 2].
 
-(* the class on which parseTimeZoneToNas is wrong (F14): a negative zone whose
-   sign flips when the adjustment is added *)
-Definition sign_flip (q : Z) (dst : N) : bool := ((q <? 0) && (0 <? q + 4 * Z.of_N dst))%Z.
 (* zone + adjustment beyond +19:45 cannot be coded at all (two BCD digits, tens <= 7) *)
 Definition codable (q : Z) (dst : N) : bool := (q + 4 * Z.of_N dst <=? 79)%Z.
 
@@ -51,26 +48,24 @@ Definition tz_ok (q : Z) (dst : N) : bool :=
   end.
 
 Lemma tz_sweep :
-  forallb (fun q => forallb (fun d => negb (codable q d) || sign_flip q d || tz_ok q d) dsts) zones = true.
+  forallb (fun q => forallb (fun d => negb (codable q d) || tz_ok q d) dsts) zones = true.
 Proof. vm_cast_no_check (@eq_refl bool true). Qed.
 
-Lemma tz_partial q dst :
+Lemma tz_full q dst :
   (-79 <= q <= 79)%Z -> dst <= 2 -> (q + 4 * Z.of_N dst <= 79)%Z ->
-  ~ (q < 0 /\ 0 < q + 4 * Z.of_N dst)%Z ->
   exists o, EncodeLocalTimeZoneToNas (tz_text q dst) = Ok o /\
             tz_dec o = Some (q + 4 * Z.of_N dst)%Z /\
             getTimeZoneOffset o = (900 * (q + 4 * Z.of_N dst))%Z /\
             DecodeLocalTimeZone o = tz_text (q + 4 * Z.of_N dst) 0.
 Proof.
-  intros Hq Hd Hc Hf. pose proof tz_sweep as H.
+  intros Hq Hd Hc. pose proof tz_sweep as H.
   rewrite forallb_forall in H. specialize (H q). unfold zones in H.
   specialize (H (In_zrange (-79) 159 q ltac:(lia))).
   rewrite forallb_forall in H. specialize (H dst).
   assert (Hin : In dst dsts) by (unfold dsts; cbn; lia).
   specialize (H Hin).
-  unfold codable, sign_flip in H.
+  unfold codable in H.
   replace (q + 4 * Z.of_N dst <=? 79)%Z with true in H by lia.
-  replace ((q <? 0) && (0 <? q + 4 * Z.of_N dst))%Z%bool with false in H by lia.
   cbn [negb orb] in H. unfold tz_ok in H.
   destruct (EncodeLocalTimeZoneToNas (tz_text q dst)) as [o| | |]; try discriminate.
   destruct (tz_dec o) as [v|] eqn:Ev; try discriminate.
@@ -79,44 +74,20 @@ Proof.
   apply eqb_bytes_spec. exact H3.
 Qed.
 
-(* on the whole sign-flip class the result is wrong: it never decodes to q + 4 dst *)
-Definition tz_wrong (q : Z) (dst : N) : bool :=
-  match EncodeLocalTimeZoneToNas (tz_text q dst) with
-  | Ok o => match tz_dec o with
-            | Some v => negb (v =? q + 4 * Z.of_N dst)%Z
-            | None => true
-            end
-  | _ => true
-  end.
-
-Lemma tz_flip_sweep :
-  forallb (fun q => forallb (fun d => negb (sign_flip q d) || tz_wrong q d) dsts) zones = true.
-Proof. vm_cast_no_check (@eq_refl bool true). Qed.
-
-Lemma tz_refuted_class q dst :
-  (-79 <= q < 0)%Z -> dst <= 2 -> (0 < q + 4 * Z.of_N dst)%Z ->
-  forall o, EncodeLocalTimeZoneToNas (tz_text q dst) = Ok o ->
-            tz_dec o <> Some (q + 4 * Z.of_N dst)%Z.
-Proof.
-  intros Hq Hd Hf o Ho. pose proof tz_flip_sweep as H.
-  rewrite forallb_forall in H. specialize (H q). unfold zones in H.
-  specialize (H (In_zrange (-79) 159 q ltac:(lia))).
-  rewrite forallb_forall in H. specialize (H dst).
-  assert (Hin : In dst dsts) by (unfold dsts; cbn; lia).
-  specialize (H Hin). unfold sign_flip in H.
-  replace ((q <? 0) && (0 <? q + 4 * Z.of_N dst))%Z%bool with true in H by lia.
-  cbn [negb orb] in H. unfold tz_wrong in H. rewrite Ho in H.
-  destruct (tz_dec o) as [v|]; [|discriminate].
-  intro E. inversion E; subst. rewrite Z.eqb_refl in H. discriminate.
-Qed.
-
-(* the witness: "-00:30+1" (zone -00:30 with one hour of daylight saving =
-   +00:30) is coded 0xEF, which is not a time zone at all (units digit 14) *)
-Lemma tz_refuted :
+(* the former defect F14 (fixed by commit 95fc7fd): a negative zone smaller than
+   the adjustment; "-00:30+1" is +00:30 = 2 quarter hours, coded 0x20 *)
+Lemma tz_former_F14 :
   tz_text (-2) 1 = [45;48;48;58;51;48;43;49] /\
-  EncodeLocalTimeZoneToNas (tz_text (-2) 1) = Ok 239 /\ tz_dec 239 = None /\
-  getTimeZoneOffset 239 = (-75600)%Z.
+  EncodeLocalTimeZoneToNas (tz_text (-2) 1) = Ok 32 /\ tz_dec 32 = Some 2%Z /\
+  getTimeZoneOffset 32 = 1800%Z.
 Proof. repeat split; reflexivity. Qed.
+
+(* what remains outside: zone + adjustment beyond +19:45 has no code (tens digit
+   <= 7); the BCD tens digit 8 collides with the sign bit, e.g. "+19:00+1" (80
+   quarter hours) is coded 0x08 = -0 *)
+Lemma tz_beyond_range_example :
+  EncodeLocalTimeZoneToNas (tz_text 76 1) = Ok 8 /\ tz_dec 8 = Some 0%Z.
+Proof. split; reflexivity. Qed.
 
 (* parseTimeZoneToNas needs at least 6 octets of text (index / slice panics below) *)
 Definition pan_ok {A} (x : outcome A) : Prop :=
@@ -267,9 +238,8 @@ Definition civil_ok (t : gotime) : Prop :=
 Definition zone_ok (t : gotime) (q : Z) : Prop :=
   zoff t = (900 * q)%Z /\ (-79 <= q <= 79)%Z /\
   (* with the daylight-saving flag set the code writes the zone as (q - 4) "+1":
-     that zone must itself be one of the 159 (q - 4 >= -79), and, F14, its sign
-     must not flip: excluded are 0 < q < 4 (+00:15 .. +00:45 in DST) *)
-  (isdst t = true -> (-75 <= q)%Z /\ ~ (0 < q < 4)%Z).
+     that zone must itself be one of the 159 (q - 4 >= -79) *)
+  (isdst t = true -> (-75 <= q)%Z).
 
 Lemma year_rem y : (2000 <= y <= 2099)%Z -> (0 <= Z.rem y 100 <= 99 /\ 2000 + Z.rem y 100 = y)%Z.
 Proof. intro. lia. Qed.
@@ -290,9 +260,9 @@ Proof.
   assert (Htz : exists o, EncodeLocalTimeZoneToNas (if isdst t then tz_text (q - 4) 1 else tz_text q 0) = Ok o /\
                           tz_dec o = Some q /\ getTimeZoneOffset o = (900 * q)%Z).
   { destruct (isdst t) eqn:Ed.
-    - specialize (Hf eq_refl). destruct (tz_partial (q - 4) 1) as (o & H1 & H2 & H3 & _); try lia.
+    - specialize (Hf eq_refl). destruct (tz_full (q - 4) 1) as (o & H1 & H2 & H3 & _); try lia.
       + exists o. split; [exact H1|]. split; [rewrite H2; f_equal; lia|lia].
-    - destruct (tz_partial q 0) as (o & H1 & H2 & H3 & _); try lia.
+    - destruct (tz_full q 0) as (o & H1 & H2 & H3 & _); try lia.
       exists o. split; [exact H1|]. split; [rewrite H2; f_equal; lia|lia]. }
   destruct Htz as (o & Ho & Hdec & Hoff).
   unfold EncodeLocalTimeZoneToNas in Ho.
@@ -320,8 +290,8 @@ Proof.
   - cbn [nth]. rewrite Hdec. cbn [option_map]. rewrite Hz. reflexivity.
 Qed.
 
-(* F14 seen through the time stamp: a zone +00:30 in daylight saving time *)
-Lemma timestamp_refuted :
+(* formerly F14: a zone +00:30 in daylight saving time *)
+Lemma timestamp_former_F14 :
   EncodeUniversalTimeAndLocalTimeZoneToNas (mkgotime 2023 7 1 12 0 0 1800 true) =
-    Ok [50; 112; 16; 33; 0; 0; 239] /\ tz_dec 239 = None.
+    Ok [50; 112; 16; 33; 0; 0; 32] /\ tz_dec 32 = Some 2%Z.
 Proof. split; reflexivity. Qed.
